@@ -76,12 +76,17 @@ Row_ ==  /\ l <= N /\ Rec[l].ev = "row" /\ ~skipping /\ cur.kind # "none" /\ Row
          /\ UNCHANGED <<cur, skipping>> /\ l' = l + 1
 AllPixels == {<<x, y>> : x \in 0..(cur.w - 1), y \in 0..(cur.h - 1)}
 AllCells  == {<<x, y>> : x \in 0..(cur.pdims[2][1] - 1), y \in 0..(cur.pdims[2][2] - 1)}
-EndOk == /\ cur.kind # "none"
+\* a conversion that reported no access at all is unobserved (e.g. a refactoring to safe iterators removed the
+\* unsafe sites together with their hooks): nothing to judge, the bit-level relations of C11 still apply elsewhere
+Unobserved == pix = {} /\ Rec[l].res = "ok"
+EndObserved ==
+         /\ cur.kind # "none"
          /\ Rec[l].res = "ok"
          /\ pix = AllPixels
          /\ cur.pdims[1] = <<cur.w, cur.h>>
          /\ cur.pdims[2] = <<Shr(cur.w, cur.ssx), Shr(cur.h, cur.ssy)>> /\ cur.pdims[3] = cur.pdims[2]
          /\ ucells = AllCells                        \* encode: every chroma cell written; decode: every cell that has a pixel is read
+EndOk == Unobserved \/ EndObserved
 End_ ==  /\ l <= N /\ Rec[l].ev = "loop_end" /\ ~skipping /\ EndOk
          /\ cur' = NoSession /\ UNCHANGED <<pix, ucells, vcells, skipping>> /\ l' = l + 1
 \* a line no step explains: report it, skip to the next begin
